@@ -783,6 +783,7 @@ def check_hit_fn(ck, tree, fn, name):
         if ref_of(n) == leafv or (match.ptr_truth(n) is not None and ref_of(match.ptr_truth(n)) == leafv):
             return "N", False
         return None
+    atomize = B.with_local_lambdas(atomize, B.Roles(fn))
     leaves = dtable.explore(_syn("CompoundStmt", region), atomize, fn)
     atoms = dtable.atoms_of(leaves)
 
@@ -964,6 +965,7 @@ def check_iter_walk(ck, tu, tree):
     n_sit = 0
     gives_up_somewhere = False
     ke = KeyEval(tu, classify)
+    lam_roles = B.Roles(fn)
     for kv in SEARCH_VALS:
         for bv in (True, False):
             def atomize(n, run, kv=kv, bv=bv):
@@ -978,7 +980,7 @@ def check_iter_walk(ck, tu, tree):
                 if child_failed(n):
                     return "F", False
                 return None
-            leaves = dtable.explore(region, atomize, fn)
+            leaves = dtable.explore(region, B.with_local_lambdas(atomize, lam_roles), fn)
             for lf in leaves:
                 if lf["val"].get("F") is False:
                     continue        # the child held the leaf: not part of the walk
@@ -1260,6 +1262,7 @@ def check_siblings(ck, tree):
             if pt is not None and roles.param_of(pt) in (B.P_LEFT, B.P_RIGHT):
                 return ("null", roles.param_of(pt)), True
             return None
+        atomize = B.with_local_lambdas(atomize, roles)      # (kind() below evaluates conditions with the same atomizer)
 
         def kind(e, v, got, depth=0):
             """symbolic value of a node pointer expression in situation v: 'null' | a parameter name | 'X.child[off]' | None"""
